@@ -313,9 +313,12 @@ def c07(ctx):
 # =========================================================================================
 #  Bevy plugin: C18 C19
 # =========================================================================================
+NKW = 7   # entity configurations in MC_Bevy.tla
+
+
 def mc_bevy(ctx):
     steps = 6 if ctx.quick() else 7
-    for kw in range(1, 7):
+    for kw in range(1, NKW + 1):
         run_tlc(ctx, "MC_Bevy", "MC_Bevy_quick.cfg", workers=8, subst={"KW": kw, "MaxSteps": steps}, timeout=3000)
     run_tlc(ctx, "MC_Bevy", "MC_Bevy_quick.cfg", workers=4, subst={"KW": 1, "Defects": '{"C18_phase_skip"}'}, expect_violation="C18")
     run_tlc(ctx, "MC_Bevy", "MC_Bevy_quick.cfg", workers=4, subst={"KW": 4, "Defects": '{"C19_untyped_event"}'}, expect_violation="C19")
@@ -339,7 +342,7 @@ def bevy_validate(ctx, trace, label, stats):
 
 def bevy_legs(ctx):
     # leg A: TLC enumerates the input schedules
-    for kw in ((1, 3, 5, 6) if ctx.quick() else range(1, 7)):
+    for kw in ((1, 3, 5, 6, 7) if ctx.quick() else range(1, NKW + 1)):
         run = run_tlc(ctx, "MC_Bevy", "Gen_Bevy.cfg", workers=4, subst={"KW": kw, "MaxSteps": 4 if ctx.quick() else 5}, capture="gen-bevy.txt", timeout=3000)
         if count_replay(run["out"]) == 0:
             raise ToolError("MC_Bevy generator produced no schedules")
@@ -357,7 +360,7 @@ def bevy_legs(ctx):
 
 
 RULE_BEVY = ("TLC explores every schedule of frame deltas {0,1,3,1000 ticks} and user operations (key assignment, enable/disable, reset, set_timeline) "
-             "up to the depth in tlc_runs on 6 entity configurations under all 8 admissible system orders with each system as its own step; the same "
+             "up to the depth in tlc_runs on 7 entity configurations under all 8 admissible system orders with each system as its own step; the same "
              "schedules (leg A) and seeded random ones (leg B) are run in a real App with a hand-driven Time; TLC validates each log (state, position, "
              "enabled, selector key, event sequence per frame) searching over the system order, and the harness re-evaluates the real timelines at the "
              "evaluation points predicted by the surviving behaviours and compares component bits")
